@@ -187,6 +187,10 @@ type Options struct {
 	// OnState is called at every scheduling point (incl. prefix) — used to
 	// collect distinct storage images.
 	OnState func()
+	// IntraClientCost makes every choice other than the first enabled gate
+	// cost one deviation, also among gates of one client (used to bound the
+	// schedules of the worker goroutines of a single parallel query).
+	IntraClientCost bool
 	// AbortAll is called when the execution is abandoned; it must make every
 	// pending storage operation fail fast (e.g. crash the engines).
 	AbortAll func()
@@ -321,10 +325,13 @@ func Run(s *Sched, clients []Client, opt Options) *Exec {
 		})
 		p := Point{}
 		lastEnabled := last >= 0 && parkedOf[last] > 0
-		for _, g := range gates {
+		for gi, g := range gates {
 			p.Enabled = append(p.Enabled, fmt.Sprintf("%s:%s", s.names[g.client], g.desc))
 			c := 0
 			if lastEnabled && g.client != last {
+				c = 1
+			}
+			if opt.IntraClientCost && gi > 0 {
 				c = 1
 			}
 			p.Cost = append(p.Cost, c)
